@@ -952,6 +952,91 @@ run_s13(void *arg)
 	vh_fini();
 }
 
+// ---- S14: websocket stream dial || cancel ---------------------------------------------------
+// the dial goes through TCP connect, HTTP upgrade request and response; the cancel can land in any
+// of those stages, also at the moment the upgrade completes.  Exactly one completion; result 0
+// (with a usable stream) or NNG_ECANCELED.
+static op S14;
+static void *
+s14_canceller(void *a)
+{
+	(void) a;
+	nng_aio_cancel(S14.aio);
+	return NULL;
+}
+static void
+run_s14(void *arg)
+{
+	int when = (int) (intptr_t) arg; // 0: cancel at once, 1: after the connection had time to progress
+	vs_tcp_grace_us = 1500;
+	vh_init(0);
+	memset(&S14, 0, sizeof(S14));
+	nng_stream_listener *sl;
+	nng_stream_dialer   *sd;
+	nng_aio             *acc;
+	char                 url[96];
+	int                  port = 0;
+	VH_OK(nng_stream_listener_alloc(&sl, "ws://127.0.0.1:0/s14"));
+	VH_OK(nng_stream_listener_listen(sl));
+	VH_OK(nng_stream_listener_get_int(sl, NNG_OPT_BOUND_PORT, &port));
+	snprintf(url, sizeof(url), "ws://127.0.0.1:%d/s14", port);
+	VH_OK(nng_aio_alloc(&acc, NULL, NULL));
+	nng_stream_listener_accept(sl, acc);
+	VH_OK(nng_stream_dialer_alloc(&sd, url));
+	VH_OK(nng_aio_alloc(&S14.aio, op_cb, &S14));
+	S14.timeout   = -1;
+	S14.submitted = 1;
+	vs_settle();
+	pthread_t tc;
+	vs_window(1);
+	nng_stream_dialer_dial(sd, S14.aio);
+	if (when == 1)
+		vs_settle(); // TCP connected, upgrade request sent: the response is what races
+	pthread_create(&tc, NULL, s14_canceller, NULL);
+	pthread_join(tc, NULL);
+	vs_log("cancelled; waiting for the dial");
+	nng_aio_wait(S14.aio);
+	vs_log("dial done %d", S14.result);
+	vs_window(0);
+	vs_settle();
+	vs_sleep(20);
+	vs_settle();
+	if (S14.ncb != 1)
+		vs_fail("C02:callback-count", "ws stream dial: %d callbacks", S14.ncb);
+	// (NNG_ETIMEDOUT: the upgrade has its own 2 s limit, which a TIMER deviation lets expire)
+	static const int ok[] = { 0, NNG_ECANCELED, NNG_ECONNRESET, NNG_ECLOSED, NNG_ECONNSHUT,
+		NNG_ETIMEDOUT };
+	allowed(&S14, "ws stream dial", ok, 6);
+	vs_outcome("when=%d res=%d", when, S14.result);
+	if (S14.result == 0) {
+		nng_stream *st = nng_aio_get_output(S14.aio, 0);
+		if (st == NULL)
+			vs_fail("C02:result-without-effect", "ws dial result 0 without a stream");
+		nng_stream_close(st);
+		nng_stream_stop(st);
+		nng_stream_free(st);
+	}
+	vs_log("closing");
+	nng_stream_dialer_close(sd);
+	nng_stream_listener_close(sl);
+	vs_log("waiting for accept");
+	nng_aio_wait(acc);
+	vs_log("accept done");
+	if (nng_aio_result(acc) == 0) {
+		nng_stream *st = nng_aio_get_output(acc, 0);
+		nng_stream_close(st);
+		nng_stream_stop(st);
+		nng_stream_free(st);
+	}
+	nng_stream_dialer_stop(sd);
+	nng_stream_dialer_free(sd);
+	nng_stream_listener_stop(sl);
+	nng_stream_listener_free(sl);
+	nng_aio_free(acc);
+	nng_aio_free(S14.aio);
+	vh_fini();
+}
+
 static void
 explore(const char *name, void (*fn)(void *), void *arg, int p, int t, int sw,
     int total)
@@ -1025,6 +1110,9 @@ main(int argc, char **argv)
 	explore("S12-expiry-restart-preempt@11", run_s11, (void *) (intptr_t) (0x100 | 11), p, t, sw, tot);
 	explore("S13-streamdial-cancel-redial-tcp", run_s13, (void *) 0, 1, 1, 2, 2);
 	explore("S13-streamdial-cancel-redial-ipc", run_s13, (void *) 1, 1, 1, 2, 2);
+	// (about 250 choice points per execution: one deviation quick, two thorough)
+	explore("S14-wsdial-cancel", run_s14, (void *) 0, 1, 1, 1, T ? 2 : 1);
+	explore("S14-wsdial-progress-cancel", run_s14, (void *) 1, 1, 1, 1, T ? 2 : 1);
 	explore("S4-ctxrecv-reply", run_s4, (void *) 0, p, t, sw, tot);
 	explore("S4-ctxrecv-reply-cancel", run_s4, (void *) 1, p, t, sw, tot);
 	explore("S7-device-cancel", run_s7, NULL, 1, 1, 1, 1); // teardown has ~300 points: 1 deviation
